@@ -62,13 +62,14 @@ MutsOf(k) ==
     [] k \in {"Rect", "RRect", "Circle", "Ellipse", "SimpleLine"} ->
                        {"setgeom", "imul", "reify", "paint", "setfill", "sw", "tredit", "values", "setid"}
     [] k \in LenShapes -> {"setgeom", "scalegeom", "imul", "reify", "paint", "setfill", "sw", "tredit", "values", "setid"}   \* scalegeom: x *= 2, the in-place operator of the Length
-    [] k \in {"TextLen", "ImageLen"} -> {"scalegeom", "imul", "values", "tredit"}
+    [] k = "TextLen" -> {"scalegeom", "imul", "values", "tredit"}
+    [] k = "ImageLen" -> {"scalegeom", "imul", "values", "tredit", "vbedit"}
     [] k = "MatrixLen" -> {"scalegeom", "post_translate", "seta"}
     [] k \in {"Polyline", "Polygon"} ->
                        {"setpt", "ptappend", "imul", "reify", "paint", "sw", "tredit", "values"}
     [] k \in Groups -> {"imul", "reify", "values", "append", "delete", "childedit", "childtredit", "setid"}
     [] k = "Text"   -> {"imul", "reify", "paint", "settext", "values", "tredit"}
-    [] k = "Image"  -> {"imul", "values", "seturl", "tredit"}
+    [] k = "Image"  -> {"imul", "values", "seturl", "tredit", "vbedit"}      \* vbedit: a field of the image's viewbox object
 
 VARIABLES kind, op, hist, vx, vy
 vars == <<kind, op, hist, vx, vy>>
